@@ -14,6 +14,13 @@ const A1: u32 = 100;
 const A2: u32 = 101;
 
 fn body(m: u32, two_actions: bool) {
+    body_x(m, two_actions, false)
+}
+
+/// `stop_early`: the first action's reducer is parked on a gate, the second action is queued, and
+/// stop() is called before the gate is opened — it can only return through its timeout; the
+/// verdicts must be honoured for the backlog all the same
+fn body_x(m: u32, two_actions: bool, stop_early: bool) {
     // data choices, recorded for the oracle: code = action_index * 100 + mw * 3 + hook
     let mut tables: Vec<Vec<[Verdict; 3]>> = vec![]; // [action][mw][hook]
     let nact = if two_actions { 2 } else { 1 };
@@ -36,6 +43,10 @@ fn body(m: u32, two_actions: bool) {
     let remover = choose(m as usize + 1); // m = nobody removes
     note("remover", remover as i64, 0);
     let mut cfg = StoreCfg::new(2, 4, Pol::Block);
+    let gate = verif_rt::Gate::new(0);
+    if stop_early {
+        cfg.knobs = Knobs { reducer_gate: Some(gate), reducer_gate_only: Some(A1), ..Default::default() };
+    }
     for mw in 0..m {
         let tb = tables.clone();
         cfg.mws.push(Arc::new(ScriptMw {
@@ -54,6 +65,10 @@ fn body(m: u32, two_actions: bool) {
         dispatch(&store, Act::new(A2).eff(0, EFF_TASK));
     }
     stop(&store, 0);
+    if stop_early {
+        gate.open(1);
+        verif_rt::quiesce();
+    }
     get_state(&store, 99);
 }
 
@@ -224,6 +239,24 @@ pub fn scenarios(tier: Tier) -> Vec<Scenario> {
             add(1, true, 2);
             add(2, true, 1);
         }
+    }
+    // stop() returning through its timeout must not change what the verdicts mean for the backlog
+    for (m, b) in if tier == Tier::Quick { vec![(1u32, 0u32)] } else { vec![(1, 1), (2, 0)] } {
+        v.push(Scenario {
+            name: format!("C12/stop-timeout/m{}", m),
+            params: format!("middlewares={} actions=2, reducer parked, stop() times out, then the backlog is processed", m),
+            opts: verif_rt::RunOpts { elide: vec![ELIDE_RED, ELIDE_MW], ..Default::default() },
+            bound: b,
+            body: Arc::new(move || body_x(m, true, true)),
+            check: Arc::new(move |r| {
+                let mut f = check(r, m, true);
+                // the timeout is the scenario's doing (the harness parks the reducer), not a finding;
+                // a stop() that gave up has taken the pool away, so whether the backlog's effects
+                // still run is not compared here (hook calls, reducers, notification, state are)
+                f.retain(|x| x.sig != "timeout" && x.sig != "mw-effects");
+                f
+            }),
+        });
     }
     v
 }
